@@ -199,13 +199,15 @@ pub fn c20(tier: Tier) -> i32 {
     acc = Acc::merge(acc, part);
     // malformed JSON ledgers: a multi-byte character slides over every offset around the error position, for
     // four kinds of error, through three tools; every request must be answered (with an error)
-    malformed_json_sweep(&ctx, &mut acc);
+    malformed_json_sweep(&ctx, &mut acc, "C20");
     // every fixture ledger: MCP answers equal the CLI's; explain_matching explains every listed disposal
     fixtures(&ctx, &mut acc);
+    // many requests in flight: bursts of 8..64 requests written in one batch, per tool and mixed
+    bursts(&ctx, &mut acc, if tier == Tier::Quick { &[8, 16, 32, 64] } else { &[8, 16, 32, 64, 128, 256] });
     ctx.require(acc.get("sessions-with-pipelined-requests") > 0 && acc.get("fixtures:compared") >= 30, "pipelined sessions and fixture comparisons must be exercised");
     ctx.bound = json!({"request_alphabet": n, "max_sequence_length": k, "patterns": "all 2^(k-1) await/pipeline patterns", "horizon_s": 2});
     ctx.alphabets.push(json!({"requests": alpha.iter().map(|(n, b)| json!({"name": n, "body": b})).collect::<Vec<_>>()}));
-    ctx.explanation = "States are sessions: every sequence of at most k requests over the request alphabet (the five tools with good arguments, failing calculations, malformed arguments, unknown tool, resource methods), under every await/pipeline pattern (each request either waits for the previous response or is written in the same write), each in a fresh real `cgt-tool mcp` process after the initialize handshake; stdin stays open until every response has arrived or a 2 s horizon has passed. Exactly one response per id, none for foreign ids, each body identical to the one the same request gets alone in a fresh session (and identical across six fresh solo sessions), process alive until EOF and exit 0 afterwards. For every fixture ledger of tests/inputs, calculate_report equals `cgt-tool report --format json` and explain_matching explains every listed disposal with the same legs.".into();
+    ctx.explanation = "States are sessions: every sequence of at most k requests over the request alphabet (the five tools with good arguments, failing calculations, malformed arguments, unknown tool, resource methods), under every await/pipeline pattern (each request either waits for the previous response or is written in the same write), each in a fresh real `cgt-tool mcp` process after the initialize handshake; stdin stays open until every response has arrived or a 2 s horizon has passed. Exactly one response per id, none for foreign ids, each body identical to the one the same request gets alone in a fresh session (and identical across six fresh solo sessions), process alive until EOF and exit 0 afterwards. For every fixture ledger of tests/inputs, calculate_report equals `cgt-tool report --format json` and explain_matching explains every listed disposal with the same legs. Bursts: 8, 16, 32, 64 (thorough: up to 256) requests written in one batch, on the SyntheticComplex ledger and on a generated 1344-line ledger, per tool and mixed: each id answered exactly once with the body the request gets alone.".into();
     ctx.assumptions = vec![
         "internal interleavings of rmcp/tokio tasks cannot be enumerated (the repository owns no synchronisation; neither loom nor shuttle can schedule tokio's runtime); what is enumerated is every externally controllable schedule; responses are matched by id so any completion order is accepted".into(),
         "non-JSON lines and methods outside the five tools and the resource methods are outside the statement's quantifier".into(),
@@ -297,7 +299,138 @@ fn fixtures(ctx: &Ctx, acc: &mut Acc) {
     *acc = merged;
 }
 
-fn malformed_json_sweep(ctx: &Ctx, acc: &mut Acc) {
+/// Bursts: n requests written to the server in ONE batch (all in flight at once), on the largest fixture ledger, for
+/// each tool alone and for a mix; every id must be answered exactly once with the body the same request gets when it
+/// is sent alone and awaited. The in-flight count is the bound that is iterated.
+fn bursts(ctx: &Ctx, acc: &mut Acc, sizes: &[usize]) {
+    let synthetic = std::fs::read_to_string("/repo/tests/inputs/SyntheticComplex.cgt").unwrap_or_else(|_| machinery_failure("tests/inputs/SyntheticComplex.cgt missing"));
+    // a long ledger (each calculation takes long enough for the requests of a burst to overlap): eight years of
+    // purchases and sales of one security every other day
+    let mut long = String::new();
+    for year in 2016..2024 {
+        for month in 1..=12 {
+            for (k, day) in (1..=27).step_by(2).enumerate() {
+                if k % 2 == 0 {
+                    long.push_str(&format!("{year}-{month:02}-{day:02} BUY ACME 10 @ {}.{day:02} FEES 1\n", 100 + month));
+                } else {
+                    long.push_str(&format!("{year}-{month:02}-{day:02} SELL ACME 5 @ {}.{day:02} FEES 1\n", 105 + month));
+                }
+            }
+        }
+    }
+    for (label, text) in [("tests/inputs/SyntheticComplex.cgt", synthetic), ("generated: 8 years, a trade every other day", long)] {
+        bursts_on(ctx, acc, sizes, label, &text);
+    }
+}
+
+fn bursts_on(ctx: &Ctx, acc: &mut Acc, sizes: &[usize], ledger_label: &str, text: &str) {
+    let sc = Scratch::new();
+    sc.write("in.cgt", text.as_bytes());
+    let cli = run_tool(&["report", "in.cgt", "--format", "json"], &sc, crate::cli::T);
+    let rep: Value = serde_json::from_str(&cli.out()).unwrap_or_else(|_| machinery_failure("cannot read the CLI report of the burst ledger"));
+    let mut disposals: Vec<(Value, Value)> = vec![];
+    for y in rep["tax_years"].as_array().cloned().unwrap_or_default() {
+        for d in y["disposals"].as_array().cloned().unwrap_or_default() {
+            disposals.push((d["date"].clone(), d["ticker"].clone()));
+        }
+    }
+    if disposals.len() < 5 {
+        machinery_failure("the burst ledger lists fewer than 5 disposals");
+    }
+    let dsl_json = "[{\"date\":\"2024-01-15\",\"ticker\":\"aapl\",\"action\":\"buy\",\"amount\":\"1\",\"price\":\"2\"}]";
+    let mk = |kind: &str, i: usize| -> Value {
+        match kind {
+            "calculate_report" => call("calculate_report", json!({"transactions": text})),
+            "explain_matching" => {
+                let (d, t) = &disposals[i % disposals.len()];
+                call("explain_matching", json!({"transactions": text, "disposal_date": d, "ticker": t}))
+            }
+            "parse_transactions" => call("parse_transactions", json!({"transactions": text})),
+            "convert_to_dsl" => call("convert_to_dsl", json!({"transactions": dsl_json})),
+            "get_fx_rate" => call("get_fx_rate", json!({"currency": "USD", "year": 2020 + (i % 5), "month": 1 + (i % 12)})),
+            "resources/list" => json!({"method": "resources/list"}),
+            _ => machinery_failure("burst kind"),
+        }
+    };
+    let kinds = ["calculate_report", "explain_matching", "parse_transactions", "convert_to_dsl", "get_fx_rate", "resources/list", "mixed"];
+    let all = ["calculate_report", "explain_matching", "parse_transactions", "convert_to_dsl", "get_fx_rate", "resources/list"];
+    let jobs: Vec<(&str, usize)> = kinds.iter().flat_map(|k| sizes.iter().map(move |n| (*k, *n))).collect();
+    let part = jobs
+        .par_iter()
+        .fold(Acc::new, |mut acc, (kind, n)| {
+            let bodies: Vec<Value> = (0..*n).map(|i| if *kind == "mixed" { mk(all[i % all.len()], i / all.len()) } else { mk(kind, i) }).collect();
+            // reference: the distinct bodies, one at a time, each awaited, in a session of their own
+            let mut solo: BTreeMap<String, String> = BTreeMap::new();
+            {
+                let sc = Scratch::new();
+                sc.all_years_config();
+                let mut m = Mcp::start(&sc);
+                let mut k = 0;
+                for b in &bodies {
+                    let key = b.to_string();
+                    if solo.contains_key(&key) {
+                        continue;
+                    }
+                    k += 1;
+                    let mut r = b.clone();
+                    r["jsonrpc"] = json!("2.0");
+                    r["id"] = json!(k);
+                    m.send_raw(&r.to_string());
+                    if !m.wait_for(&[k.to_string()], Duration::from_secs(30)) {
+                        acc.violation(&ctx.findings, "C20", Violation { clause: "request-not-answered-exactly-once".into(), input: Input::Json(json!({"requests": [kind]})), detail: format!("a single awaited {kind} request on the ledger '{ledger_label}' got no response within 30 s"), context: json!({"profile": "burst-reference"}) });
+                        let _ = m.finish();
+                        return acc;
+                    }
+                    solo.insert(key, body(&m.got[&k.to_string()][0]));
+                }
+                let _ = m.finish();
+            }
+            let sc = Scratch::new();
+            sc.all_years_config();
+            let mut m = Mcp::start(&sc);
+            let mut lines = vec![];
+            let mut ids = vec![];
+            for (i, b) in bodies.iter().enumerate() {
+                let mut r = b.clone();
+                r["jsonrpc"] = json!("2.0");
+                r["id"] = json!(i + 1);
+                lines.push(r.to_string());
+                ids.push((i + 1).to_string());
+            }
+            m.send_batch(&lines);
+            let ok = m.wait_for(&ids, Duration::from_secs(30));
+            acc.states += 1;
+            acc.validated += *n as u64;
+            acc.bump("burst-sessions");
+            acc.add("burst-requests", *n as u64);
+            let inp = || Input::Json(json!({"burst_of": n, "kind": kind, "ledger": ledger_label}));
+            let cx = json!({"profile": "burst", "in_flight": n, "kind": kind, "ledger": ledger_label});
+            if !ok {
+                let missing: Vec<&String> = ids.iter().filter(|i| !m.got.contains_key(*i)).collect();
+                acc.violation(&ctx.findings, "C20", Violation { clause: "request-not-answered-exactly-once".into(), input: inp(), detail: format!("{} of {n} {kind} requests written in one batch got no response within 30 s (first missing id {:?})", missing.len(), missing.first()), context: cx.clone() });
+            }
+            for (i, id) in ids.iter().enumerate() {
+                if let Some(v) = m.got.get(id) {
+                    if v.len() != 1 {
+                        acc.violation(&ctx.findings, "C20", Violation { clause: "request-not-answered-exactly-once".into(), input: inp(), detail: format!("request {id} of the burst got {} responses", v.len()), context: cx.clone() });
+                    } else if Some(&body(&v[0])) != solo.get(&bodies[i].to_string()) {
+                        acc.violation(&ctx.findings, "C20", Violation { clause: "answer-depends-on-history".into(), input: inp(), detail: format!("request {id} of a burst of {n} {kind} requests is answered differently than when sent alone"), context: cx.clone() });
+                    }
+                }
+            }
+            let alive = m.alive();
+            let (code, _, _) = m.finish();
+            if !alive || code != Some(0) {
+                acc.violation(&ctx.findings, "C20", Violation { clause: "server-died-before-eof".into(), input: inp(), detail: format!("server alive before EOF: {alive}, exit {code:?}"), context: cx });
+            }
+            acc
+        })
+        .reduce(Acc::new, Acc::merge);
+    let merged = Acc::merge(std::mem::take(acc), part);
+    *acc = merged;
+}
+
+pub fn malformed_json_sweep(ctx: &Ctx, acc: &mut Acc, prop: &'static str) {
     let kinds: Vec<(&str, Box<dyn Fn(&str, &str) -> String + Sync>)> = vec![
         ("syntax error after the filler", Box::new(|a: &str, b: &str| format!(r#"[{{"date":"2024-01-15","ticker":"X","action":"BUY","amount":"1","note":"{a}","price":"2" "fees":"{b}"}}]"#))),
         ("unknown action", Box::new(|a: &str, b: &str| format!(r#"[{{"date":"2024-01-15","ticker":"X","note":"{a}","action":"FROB","amount":"1","price":"2","memo":"{b}"}}]"#))),
@@ -332,20 +465,20 @@ fn malformed_json_sweep(ctx: &Ctx, acc: &mut Acc) {
             if !ok {
                 let missing: Vec<usize> = ids.iter().enumerate().filter(|(_, i)| !m.got.contains_key(*i)).map(|(n, _)| n).collect();
                 let first = missing.first().copied().unwrap_or(0);
-                acc.violation(&ctx.findings, "C20", Violation { clause: "request-not-answered-exactly-once".into(), input: Input::Json(json!({"tool": tools[*t], "transactions": payloads[first]})), detail: format!("{} of {} malformed-JSON requests ({}) to {} got no response within 20 s; first: request #{}", missing.len(), ids.len(), kinds[*k].0, tools[*t], first + 1), context: json!({"profile": "malformed-json-sweep", "request": {"params": {"arguments": {"transactions": payloads[first]}}}}) });
+                acc.violation(&ctx.findings, prop, Violation { clause: "request-not-answered-exactly-once".into(), input: Input::Json(json!({"tool": tools[*t], "transactions": payloads[first]})), detail: format!("{} of {} malformed-JSON requests ({}) to {} got no response within 20 s; first: request #{}", missing.len(), ids.len(), kinds[*k].0, tools[*t], first + 1), context: json!({"profile": "malformed-json-sweep", "request": {"params": {"arguments": {"transactions": payloads[first]}}}}) });
             } else {
                 for (n, i) in ids.iter().enumerate() {
                     if m.got[i].len() != 1 {
-                        acc.violation(&ctx.findings, "C20", Violation { clause: "request-not-answered-exactly-once".into(), input: Input::Json(json!({"tool": tools[*t], "transactions": payloads[n]})), detail: format!("{} responses", m.got[i].len()), context: json!({"profile": "malformed-json-sweep"}) });
+                        acc.violation(&ctx.findings, prop, Violation { clause: "request-not-answered-exactly-once".into(), input: Input::Json(json!({"tool": tools[*t], "transactions": payloads[n]})), detail: format!("{} responses", m.got[i].len()), context: json!({"profile": "malformed-json-sweep"}) });
                     } else if tool_text(&m.got[i][0]).is_ok() {
-                        acc.violation(&ctx.findings, "C20", Violation { clause: "malformed-input-accepted".into(), input: Input::Json(json!({"tool": tools[*t], "transactions": payloads[n]})), detail: format!("a malformed JSON ledger ({}) was answered with a result", kinds[*k].0), context: json!({"profile": "malformed-json-sweep"}) });
+                        acc.violation(&ctx.findings, prop, Violation { clause: "malformed-input-accepted".into(), input: Input::Json(json!({"tool": tools[*t], "transactions": payloads[n]})), detail: format!("a malformed JSON ledger ({}) was answered with a result", kinds[*k].0), context: json!({"profile": "malformed-json-sweep"}) });
                     }
                 }
             }
             let alive = m.alive();
             let (code, _, _) = m.finish();
             if !alive || code != Some(0) {
-                acc.violation(&ctx.findings, "C20", Violation { clause: "server-died-before-eof".into(), input: Input::Json(json!({"tool": tools[*t], "kind": kinds[*k].0})), detail: format!("server alive before EOF: {alive}, exit {code:?}"), context: json!({"profile": "malformed-json-sweep"}) });
+                acc.violation(&ctx.findings, prop, Violation { clause: "server-died-before-eof".into(), input: Input::Json(json!({"tool": tools[*t], "kind": kinds[*k].0})), detail: format!("server alive before EOF: {alive}, exit {code:?}"), context: json!({"profile": "malformed-json-sweep"}) });
             }
             acc
         })
